@@ -1,1 +1,36 @@
-(* property theorems: see below; filled in when the proofs are complete *)
+(* C09 (transfer part) - no datagram from the peer or from a foreign address reaches the
+   internal-error path; TIDs are isolated.  Property theorems only. *)
+From Coq Require Import String.
+From Coq Require Import List NArith ZArith Bool Arith Lia.
+From VF Require Import Tftp.Readers Tftp.Codec Tftp.Transfer Tftp.Run Tftp.Monitor Tftp.MonitorProofs
+  Tftp.Entries C09.Entry.
+Import ListNotations.
+
+Theorem C09_monitor_accepts : forall c, valid c -> monitor c (run_transfer_case c) = [].
+Proof. exact monitor_accepts. Qed.
+Print Assumptions C09_monitor_accepts.
+
+Theorem C09_holds : forall c, valid c -> holds c (run_transfer_case c) = [].
+Proof. intros c H. unfold holds. rewrite monitor_accepts by exact H. reflexivity. Qed.
+Print Assumptions C09_holds.
+
+(* the behaviour before the repair of D5 (ErrorCode(n) for n > 8 escaping decode_error)
+   reaches the internal-error path on an ERROR packet with code 9 *)
+Definition d5_case : tcase :=
+  {| t_content := [1; 2; 3]%N; t_chunks := []; t_netascii := false; t_options := [];
+     t_limits := {| max_bs := 65464; max_tmo := 30; default_tmo := 2 |}; t_retries := 1; t_wrap := Some 0%N;
+     t_kind := KNoFileno; t_events := [Recv 5 0%N [0; 5; 0; 9; 0]%N];
+     t_v := {| retry_fallthrough := false; errcode_raises := true |}; t_nv := ncurrent; t_na_always_skip := false |}.
+Theorem C09_refuted_D5_errcode : holds d5_case (run_transfer_case d5_case) <> [].
+Proof. vm_compute. discriminate. Qed.
+
+(* classification of datagrams is total: every byte string is an ACK with its number, a peer
+   ERROR, or invalid; never the internal-error class *)
+Theorem C09_classify_total : forall d, classify current d <> CInternal.
+Proof.
+  intros d. unfold classify. cbn [current errcode_raises andb].
+  repeat match goal with
+         | |- context [match ?x with _ => _ end] => destruct x; try discriminate
+         end.
+Qed.
+Print Assumptions C09_classify_total.
